@@ -62,13 +62,14 @@ MANIFEST = dict(
     'Partition against the model on random lists of 1-6 segments with faults at any position and bounded-exhaustively (all lists of <= 3/4 segments over 3 ids); generate_segment_size against model and oracle; '
     'real-engine likelihood of get_logit / get_nested_logit / get_cross_nested_logit vs loglogit / lognested / logcnl on the full choice set (complete sampling) and vs the Lean models sampledLL / nestedSampledLL / cnlSampledLL on complete and partial samples '
     '(nest labels distinct, absent, repeated, equal to an automatic one; shared or numeric nest parameters; old tuple syntax); the REAL signature text of these likelihoods is run by the proved engine model (lib/leanrun, C01.engine_reads_text / engine_correct) '
-    'and must agree with the semantic Lean model and with the real engine.',
+    'and must agree with the semantic Lean model and with the real engine; every one of these comparisons also at parameter values different from the initial ones (tallied).',
     design='DESIGN.md §5 C19',
     technique='Lean 4 theorems over an executable model of the sampling protocol and of the labelled frames + relation evaluated on real samples + differential correspondence through the real engine and through the proved engine model',
     note='Partial: pandas DataFrame.sample is treated relationally (its contract is monitored on every real sample); DataFrame.apply(axis=1) / stack / concat(ignore_index) are modelled, not proved about pandas (tied on every case, labels included); '
     'the labels of the rows of the RETURNED database are not part of the property and are not compared; SamplingContext.reporting (a text summary) is outside the property; '
-    'IEEE rounding of log/exp/pow is not modelled (tolerances stated); a nest of a sampled alternative without any row in a partial second sample (log 0 / 0 ** x) is skipped. Two defects are listed as known findings: F-C19-1 (rename_elementary renames a shared Variable object twice when '
-    'columns X and X_<i> exist; C19.shared_object_renamed_twice is the witness, the model is the repaired behaviour) and F-C19-3 (cross-nested nests carrying the same name are accepted and the second overwrites the first; the model is the repaired context that refuses them).',
+    'IEEE rounding of log/exp/pow is not modelled (tolerances stated); a nest of a sampled alternative without any row in a partial second sample (log 0 / 0 ** x) is skipped. No known finding is left: F-C19-1 (a shared Variable object renamed twice when '
+    'columns X and X_<i> exist) is fixed in /repo by 883442d (C19.shared_object_renamed_twice documents the old shape only; shared objects with such names are ordinary inputs of the stream) and F-C19-3 (cross-nested nests carrying the same name) by 65e2af6 (the context refuses them, as modelled). '
+    'All likelihoods are evaluated at the initial values of the parameters AND away from them (betas= of get_value_c: utility coefficients, nest parameters, e.g. initial 1 evaluated at 1.7); alphas of the cross-nested nests travel as data, so free alpha Betas must be refused by the context (checked), fixed alpha Betas are compared at their value.',
 )
 TRUSTED = [
     'pandas: DataFrame.sample(n, replace=False) returns n distinct rows of the frame (monitored: picksOK on every real sample); apply(axis=1) / stack / concat / boolean-mask primitives behave as modelled (compared on every case, with non-default indexes)',
@@ -248,6 +249,12 @@ def gen_case(rng, complete=None, with_mev=None, size=None):
     for t in terms[1:]:
         util = ['+', util, t]
     util = ['/', util, ['c', 4.0]]
+    # the point at which the likelihoods are evaluated: the initial values, or other values for some / all parameters
+    eval_betas = {}
+    if rng.random() < 0.65:
+        for nm in dict.fromkeys(beta_names(util)):
+            if rng.random() < 0.8:
+                eval_betas[nm] = rng.choice([dy(rng, -8, 8, 8), 0.0, 1.0, -1.5])
     # keep |V| <= 50 on every (individual, alternative): the Float model computes the unshifted
     # log-sum-exp, which must not overflow (the engine shifts by the maximum)
     vmax = 0.0
@@ -258,10 +265,10 @@ def gen_case(rng, complete=None, with_mev=None, size=None):
             env.update({c: vals[j] for j, c in enumerate(cols)})
             for nm, f in combined:
                 env[nm] = eval_formula(f, env)
-            vmax = max(vmax, abs(eval_formula(util, env)))
+            vmax = max(vmax, abs(eval_formula(util, env)), abs(eval_formula(at_betas(util, eval_betas), env)))
     if vmax > 50.0:
         util = ['/', util, ['c', float(2 ** math.ceil(math.log2(vmax / 50.0)))]]
-    share = rng.random() < 0.5 and not clash_pairs([id_col] + cols + [c[0] for c in combined])
+    share = rng.random() < 0.5
     # row labels of the two input frames (None = the default RangeIndex) and the way the merged
     # database is obtained (first call / second call on the same object / read back with recycle=True)
     ik = rng.choice(INDEX_KINDS) if rng.random() < 0.55 else 'default'
@@ -269,7 +276,7 @@ def gen_case(rng, complete=None, with_mev=None, size=None):
     call = rng.choice(['first', 'first', 'first', 'second', 'recycle'])
     return {
         'ind_index': gen_index(rng, n_ind, ik), 'alt_index': gen_index(rng, n, ak), 'index_kinds': {'ind_index': ik, 'alt_index': ak},
-        'call': call,
+        'call': call, 'eval_betas': eval_betas,
         'share': share,
         'id_col': id_col, 'ids': ids, 'cols': cols, 'values': values, 'int_valued': int_valued,
         'segments': segments, 'sizes': sizes, 'mev': mev,
@@ -446,6 +453,48 @@ def split_mev(strata, ids):
     if rest:
         picks[-1] = picks[-1] + rest
     return picks
+
+
+def beta_names(f):
+    if f[0] == 'b':
+        return [f[1]]
+    if f[0] in ('c', 'v'):
+        return []
+    out = []
+    for x in f[1:]:
+        out += beta_names(x)
+    return out
+
+
+def at_betas(f, vals):
+    """the formula with its parameters at the values at which it is evaluated (`betas=` of the real call)"""
+    if not vals:
+        return f
+    if f[0] == 'b':
+        return ['b', f[1], vals.get(f[1], f[2])]
+    if f[0] in ('c', 'v'):
+        return f
+    return [f[0]] + [at_betas(x, vals) for x in f[1:]]
+
+
+def _beta_leaves(f):
+    if f[0] == 'b':
+        return [f]
+    if f[0] in ('c', 'v'):
+        return []
+    out = []
+    for x in f[1:]:
+        out += _beta_leaves(x)
+    return out
+
+
+def utility_evaluated(case):
+    """utility at the evaluation point (initial values unless `eval_betas` moves them)"""
+    return at_betas(case['utility'], case.get('eval_betas'))
+
+
+def mu_evaluated(n):
+    return float(n.get('mu_eval', n['mu']))
 
 
 def lean_formula(f):
@@ -629,7 +678,7 @@ def merged_run(case):
         data = db.data.copy()
         model = GenerateModel(context)
         ll = model.get_logit()
-        obs = leanrun.observe(ll, db)
+        obs = leanrun.observe(ll, db, betas=case.get('eval_betas'))
         if 'values' not in obs:
             raise RuntimeError(obs.get('error'))
         attributes = sorted(context.attributes)
@@ -669,7 +718,7 @@ def full_model_ll(case):
         db = bdb.Database('full', pd.DataFrame(data))
         V = {int(i): build_expr(subst(case['utility'], p)) for p, i in enumerate(case['ids'])}
         ll = models.loglogit(V, None, Variable(case['choice_col']))
-        values = ll.get_value_c(database=db, prepare_ids=True)
+        values = ll.get_value_c(database=db, betas=dict(case.get('eval_betas') or {}), prepare_ids=True)
     return [float(v) for v in np.atleast_1d(values)]
 
 
@@ -714,6 +763,11 @@ def check_merge(ctx, res, case):
     res.tally(f'individuals index:{index_kind(case, "ind_index")}')
     res.tally(f'alternatives index:{index_kind(case, "alt_index")}')
     res.tally(f'sample_and_merge call:{case.get("call", "first")}')
+    eb = case.get('eval_betas') or {}
+    init = {b[1]: b[2] for b in _beta_leaves(case['utility'])}
+    moved = [k for k, v in eb.items() if k in init and v != init[k]]
+    res.tally('get_logit evaluated: ' + ('at the initial values' if not moved else 'away from the initial values (all parameters)' if len(moved) == len(init)
+                                         else 'away from the initial values (some parameters)'))
     add_table_request(ctx, res, case, data, rec1, rec2, names, J, J2)
     for r in range(n_rows):
         row = {c: fnum(data.iloc[r][c]) for c in names}
@@ -813,12 +867,12 @@ def check_merge(ctx, res, case):
         reqs.append({'op': 'define', 'row': base_row, 'alt_cols': [idc] + cols, 'J': J, 'J2': J2,
                      'combined': [[n, lean_formula(f)] for n, f in case['combined']]})
         full_row = [[c, f2b(row[c])] for c in names]
-        reqs.append({'op': 'loglik', 'row': full_row, 'attributes': attributes, 'utility': lean_formula(case['utility']), 'J': J})
+        reqs.append({'op': 'loglik', 'row': full_row, 'attributes': attributes, 'utility': lean_formula(utility_evaluated(case)), 'J': J})
         if complete:
             reqs.append({'op': 'fullll', 'ind': ind_named, 'alt_cols': cols, 'ids': case['ids'],
                          'alt_rows': [[f2b(v) for v in vals] for vals in case['values']],
                          'combined': [[n, lean_formula(f)] for n, f in case['combined']],
-                         'utility': lean_formula(case['utility']), 'chosen': chosen})
+                         'utility': lean_formula(utility_evaluated(case)), 'chosen': chosen})
 
         def cb(ans, sub=sub, row=row, base_names=base_names, names=names, r=r, complete=complete, W=W, holder=holder):
             flat = ans[0].get('row') or []
@@ -948,6 +1002,20 @@ def gen_nests(rng, pool_ids):
         nests.append({'mu': shared_mu if mu_mode == 'shared' else rng.choice(MU_VALUES), 'alts': [int(a) for a in g], 'name': name})
     if name_mode == 'auto_clash' and len(nests) >= 2 and rng.random() < 0.5:
         nests[0]['name'], nests[-1]['name'] = f'nest_{len(nests)}', None
+    # nest parameters that are Betas: evaluated at their initial value or elsewhere (initial 1 -> 1.7 among others)
+    if mu_mode != 'float' and rng.random() < 0.65:
+        how = rng.choice(['from_one', 'other', 'mixed'])
+        shared_eval = rng.choice([1.7, 1.25, 2.5])
+        for n in nests:
+            if how == 'from_one':
+                n['mu'] = 1.0
+            if how == 'mixed' and rng.random() < 0.5:
+                continue
+            n['mu_eval'] = shared_eval if mu_mode == 'shared' else rng.choice([v for v in [1.7, 1.25, 2.5, 3.0, 1.0] if v != n['mu']])
+        if mu_mode == 'shared':
+            for n in nests:
+                n['mu'] = nests[0]['mu']
+                n['mu_eval'] = shared_eval
     syntax = 'tuples' if all(n['name'] is None for n in nests) and rng.random() < 0.5 else 'objects'
     return {'syntax': syntax, 'mu_mode': mu_mode, 'nests': nests}
 
@@ -956,7 +1024,8 @@ def norm_nests(nd):
     """accepts the older replay form [(mu, members), ...]"""
     if isinstance(nd, dict):
         return {'syntax': nd.get('syntax', 'objects'), 'mu_mode': nd.get('mu_mode', 'beta'),
-                'nests': [{'mu': float(n['mu']), 'alts': [int(a) for a in n['alts']], 'name': n.get('name')} for n in nd['nests']]}
+                'nests': [{'mu': float(n['mu']), 'alts': [int(a) for a in n['alts']], 'name': n.get('name'),
+                           **({'mu_eval': float(n['mu_eval'])} if 'mu_eval' in n else {})} for n in nd['nests']]}
     return {'syntax': 'objects', 'mu_mode': 'beta',
             'nests': [{'mu': float(mu), 'alts': [int(a) for a in m], 'name': f'n{j}'} for j, (mu, m) in enumerate(nd)]}
 
@@ -980,6 +1049,16 @@ def build_nested_nests(case, nd):
         return NestsForNestedLogit(choice_set=list(case['ids']), tuple_of_nests=tuple((mu_of(j, n), list(n['alts'])) for j, n in enumerate(nd['nests'])))
     return NestsForNestedLogit(choice_set=list(case['ids']), tuple_of_nests=tuple(
         OneNestForNestedLogit(nest_param=mu_of(j, n), list_of_alternatives=list(n['alts']), name=n['name']) for j, n in enumerate(nd['nests'])))
+
+
+def nested_betas(case, nd):
+    """`betas=` of the evaluation: utility coefficients and nest parameters at the evaluation point"""
+    out = dict(case.get('eval_betas') or {})
+    if nd['mu_mode'] != 'float':
+        for j, n in enumerate(nd['nests']):
+            if 'mu_eval' in n:
+                out['MU' if nd['mu_mode'] == 'shared' else f'MU{j}'] = float(n['mu_eval'])
+    return out
 
 
 def both_complete(case):
@@ -1021,7 +1100,7 @@ def check_nested(ctx, res, case, rng, configs=None, n_configs=3):
             for c, nd in enumerate(configs):
                 try:
                     ll = model.get_nested_logit(build_nested_nests(case, nd))
-                    observed[c] = leanrun.observe(ll, db)
+                    observed[c] = leanrun.observe(ll, db, betas=nested_betas(case, nd))
                     if 'values' not in observed[c]:
                         raise RuntimeError(observed[c].get('error'))
                     sampled[c] = observed[c]['values']
@@ -1031,7 +1110,7 @@ def check_nested(ctx, res, case, rng, configs=None, n_configs=3):
             for c, nd in enumerate(configs):
                 if isinstance(sampled[c], Exception):
                     continue
-                refs[c] = full_reference(case, lambda V, choice, nd=nd: models.lognested(V, None, build_nested_nests(case, nd), choice))
+                refs[c] = full_reference(case, lambda V, choice, nd=nd: models.lognested(V, None, build_nested_nests(case, nd), choice), betas=nested_betas(case, nd))
     except Exception as e:  # noqa: BLE001
         res.count({'nested_raises': configs, 'seed': case['np_seed']})
         res.violate(f'sample_and_merge / lognested raises on a valid context: {type(e).__name__}: {e}'[:300], {**base, 'nests': configs[0]}, core.exc_kind(e),
@@ -1044,6 +1123,11 @@ def check_nested(ctx, res, case, rng, configs=None, n_configs=3):
         res.tally(f'nested:nests={len(nd["nests"])}')
         res.tally('nested:labels ' + ('absent' if all(x is None for x in labels) else 'repeated' if len(set(labels)) < len(labels) else 'distinct'))
         res.tally(f'nested:mu {nd["mu_mode"]}')
+        moved_mu = nd['mu_mode'] != 'float' and [n for n in nd['nests'] if 'mu_eval' in n and n['mu_eval'] != n['mu']]
+        res.tally('nested evaluated: nest parameters ' + ('away from the initial values' if moved_mu else 'at the initial values')
+                  + (', utility coefficients away' if any(True for _ in (case.get('eval_betas') or {})) else ''))
+        if moved_mu and any(n['mu'] == 1.0 for n in moved_mu):
+            res.tally('nested evaluated: a nest parameter initial 1 evaluated elsewhere')
         if isinstance(sampled[c], Exception):
             e = sampled[c]
             res.count({'nested_raises': nd, 'seed': case['np_seed']})
@@ -1071,15 +1155,15 @@ def check_nested(ctx, res, case, rng, configs=None, n_configs=3):
                     res.tally('nested_partial_sample_empty_nest_skipped')
                     continue
             full_row = [[k, f2b(fnum(data.iloc[r][k]))] for k in names]
-            lean_nests = [[f2b(float(n['mu'])), [int(x) for x in n['alts']]] for n in nd['nests']]
-            reqs = [{'op': 'nestedll', 'row': full_row, 'attributes': attributes, 'utility': lean_formula(case['utility']), 'J': J, 'J2': J2,
+            lean_nests = [[f2b(mu_evaluated(n) if nd['mu_mode'] != 'float' else float(n['mu'])), [int(x) for x in n['alts']]] for n in nd['nests']]
+            reqs = [{'op': 'nestedll', 'row': full_row, 'attributes': attributes, 'utility': lean_formula(utility_evaluated(case)), 'J': J, 'J2': J2,
                      'id_col': case['id_col'], 'nests': lean_nests}]
             if complete:
                 ind_named = [[case['choice_col'], f2b(float(case['choices'][r]))]] + [[k, f2b(case['irows'][r][j])] for j, k in enumerate(case['icols'])]
                 reqs.append({'op': 'fullnestedll', 'ind': ind_named, 'alt_cols': case['cols'], 'ids': case['ids'],
                              'alt_rows': [[f2b(v) for v in vals] for vals in case['values']],
                              'combined': [[n, lean_formula(f)] for n, f in case['combined']],
-                             'utility': lean_formula(case['utility']), 'chosen': case['choices'][r], 'nests': lean_nests})
+                             'utility': lean_formula(utility_evaluated(case)), 'chosen': case['choices'][r], 'nests': lean_nests})
 
             def cb(ans, a=a, sub=sub, r=r, ref=refs[c][r] if complete else None, holder=holder):
                 ll = ans[0].get('ll')
@@ -1105,7 +1189,7 @@ def check_nested_full(ctx, res, case, rng, nests_def=None):
     check_nested(ctx, res, case, rng, configs=None if nests_def is None else [nests_def], n_configs=1)
 
 
-def full_reference(case, make_model):
+def full_reference(case, make_model, betas=None):
     """the model on the full choice set: one column per (alternative, attribute), utilities written out"""
     import pandas as pd
     import biogeme.database as bdb
@@ -1135,7 +1219,7 @@ def full_reference(case, make_model):
         fdb = bdb.Database('full', pd.DataFrame(data))
         V = {int(i): build_expr(subst(case['utility'], p)) for p, i in enumerate(case['ids'])}
         full = make_model(V, Variable(case['choice_col']))
-        return [float(v) for v in np.atleast_1d(full.get_value_c(database=fdb, prepare_ids=True))]
+        return [float(v) for v in np.atleast_1d(full.get_value_c(database=fdb, betas=dict(betas or {}), prepare_ids=True))]
 
 
 F_C19_3_WHERE = 'SamplingContext.__post_init__ / GenerateModel.get_cross_nested_logit: nests of the cross-nested logit carrying the same name'
@@ -1175,10 +1259,17 @@ def gen_cnl_nests(rng, ids):
         if al:
             name = f'n{j}' if name_mode == 'auto' else 'zone' if name_mode == 'same' else ['b10', 'b2', 'N', 'nest_1'][j]
             nests_def.append([rng.choice([1.0, 1.25, 1.5, 2.0, 3.0]), sorted(al) if rng.random() < 0.5 else al, name])
+    # evaluation point of the nest parameters (Betas): initial value, or elsewhere (initial 1 -> 1.7 among others)
+    if rng.random() < 0.65:
+        from_one = rng.random() < 0.5
+        for n in nests_def:
+            if from_one:
+                n[0] = 1.0
+            n.append(rng.choice([v for v in [1.7, 1.25, 2.5, 3.0] if v != n[0]]))
     return nests_def
 
 
-def check_cnl_full(ctx, res, case, rng, nests_def=None):
+def check_cnl_full(ctx, res, case, rng, nests_def=None, alpha_mode=None):
     """the cross-nested logit generated on the sample (`GenerateModel.get_cross_nested_logit`):
 
     * oracle (property statement): with complete sampling of both samples its log likelihood equals
@@ -1187,8 +1278,9 @@ def check_cnl_full(ctx, res, case, rng, nests_def=None):
       the engine (complete or partial sampling), `Sampling.fullCnlLL` with `models.logcnl`;
     * the formula the code built (its real signature text) is run by the proved engine model (leanrun).
 
-    Nests carrying the same name: the model is the repaired behaviour (the context refuses them,
-    known finding F-C19-3); accepted outcomes are a BiogemeError or the right likelihood."""
+    Nests carrying the same name: refused by the context (F-C19-3, fixed by 65e2af6); accepted outcomes are a
+    BiogemeError or the right likelihood.  Nest parameters are evaluated at their initial value or elsewhere
+    (`betas=`); alphas are floats, fixed Betas, or free Betas (which the context must refuse)."""
     from biogeme.expressions import Beta
     from biogeme import models
     from biogeme.nests import OneNestForCrossNestedLogit, NestsForCrossNestedLogit
@@ -1197,19 +1289,67 @@ def check_cnl_full(ctx, res, case, rng, nests_def=None):
     if nests_def is None:
         nests_def = gen_cnl_nests(rng, case['ids'])
     names = cnl_names(nests_def)
-    nests_def = [[float(n[0]), [[int(a), float(w)] for a, w in n[1]], names[j]] for j, n in enumerate(nests_def)]
+    nests_def = [[float(n[0]), [[int(a), float(w)] for a, w in n[1]], names[j]] + ([float(n[3])] if len(n) > 3 else []) for j, n in enumerate(nests_def)]
     if not nests_def:
         return
+    if alpha_mode is None:
+        alpha_mode = rng.choice(['float', 'float', 'fixed_beta', 'free_beta']) if rng is not None else 'float'
+    mu_at = [n[3] if len(n) > 3 else n[0] for n in nests_def]
+    betas = dict(case.get('eval_betas') or {})
+    betas.update({f'MU{j}': n[3] for j, n in enumerate(nests_def) if len(n) > 3})
     dup = len(set(names)) < len(names)
-    sub = {'kind': 'cnl', 'case': slim(case), 'nests': nests_def}
+    sub = {'kind': 'cnl', 'case': slim(case), 'nests': nests_def, 'alpha_mode': alpha_mode}
     where = F_C19_3_WHERE if dup else 'GenerateModel.get_cross_nested_logit'
     complete = both_complete(case)
     res.tally('cnl:names ' + ('repeated' if dup else 'distinct'))
 
-    def mk_nests():
+    res.tally(f'cnl:alphas {alpha_mode}')
+    res.tally('cnl evaluated: nest parameters ' + ('away from the initial values' if any(len(n) > 3 for n in nests_def) else 'at the initial values'))
+    if any(len(n) > 3 and n[0] == 1.0 for n in nests_def):
+        res.tally('cnl evaluated: a nest parameter initial 1 evaluated elsewhere')
+
+    def mk_nests(free_alpha_init=None):
+        def alpha(j, a, w):
+            if alpha_mode == 'fixed_beta':
+                return Beta(f'A{j}_{a}', w, None, None, 1)
+            if alpha_mode == 'free_beta':
+                # a FREE alpha parameter: initial value 0 (or w), meant to be evaluated / estimated elsewhere
+                return Beta(f'A{j}_{a}', w if free_alpha_init is None else free_alpha_init, None, None, 0)
+            return w
         return NestsForCrossNestedLogit(choice_set=list(case['ids']), tuple_of_nests=tuple(
-            OneNestForCrossNestedLogit(nest_param=Beta(f'MU{j}', mu, 1.0, None, 0), dict_of_alpha={a: w for a, w in al}, name=nm)
-            for j, (mu, al, nm) in enumerate(nests_def)))
+            OneNestForCrossNestedLogit(nest_param=Beta(f'MU{j}', n[0], 1.0, None, 0), dict_of_alpha={a: alpha(j, a, w) for a, w in n[1]}, name=n[2])
+            for j, n in enumerate(nests_def)))
+
+    if alpha_mode == 'free_beta':
+        # the sampled model carries the alphas as DATA (their value when the context is built): free alphas must be
+        # refused; if they are accepted, the sampled model evaluated where alpha = its real value must still equal the
+        # full model there (alpha initial 0 -> evaluated at its value)
+        abetas = {**betas, **{f'A{j}_{a}': w for j, n in enumerate(nests_def) for a, w in n[1]}}
+        try:
+            with core.scratch():
+                context = build_context(case, cnl_nests=mk_nests(free_alpha_init=0.0))
+                gen = ChoiceSetsGeneration(context)
+                np.random.seed(case['np_seed'])
+                db = gen.sample_and_merge(recycle=False)
+                ll = GenerateModel(context).get_cross_nested_logit()
+                sampled = [float(v) for v in np.atleast_1d(ll.get_value_c(database=db, betas=dict(abetas), prepare_ids=True))]
+            ref = full_reference(case, lambda V, choice: models.logcnl(V, None, mk_nests(free_alpha_init=0.0), choice), betas=abetas) if complete else None
+        except Exception as e:  # noqa: BLE001
+            res.count({'cnl_free_alpha': core.exc_kind(e), 'nests': nests_def}, nontrivial=True)
+            if core.exc_kind(e) == 'BiogemeError':
+                res.tally('cnl:free alphas refused')
+            else:
+                res.violate(f'free alpha parameters: {type(e).__name__}: {e}'[:300], sub, core.exc_kind(e), 'BiogemeError or the right likelihood', where=where)
+            return
+        res.count({'cnl_free_alpha': 'accepted', 'nests': nests_def}, nontrivial=True)
+        res.tally('cnl:free alphas accepted')
+        if complete:
+            for r, (a, b) in enumerate(zip(sampled, ref)):
+                if not close(a, b, 1e-8, 1e-8):
+                    res.violate('complete sampling, free alpha parameters (initial 0) evaluated at their values: log likelihood of get_cross_nested_logit() '
+                                'differs from the cross-nested logit on the full choice set', {**sub, 'row': r}, a, b, where=where)
+                    return
+        return
 
     try:
         with core.scratch():
@@ -1228,11 +1368,11 @@ def check_cnl_full(ctx, res, case, rng, nests_def=None):
             attributes = sorted(context.attributes)
             J, J2 = context.total_sample_size, context.second_sample_size
             ll = GenerateModel(context).get_cross_nested_logit()
-            obs = leanrun.observe(ll, db)
+            obs = leanrun.observe(ll, db, betas=betas)
             if 'values' not in obs:
                 raise RuntimeError(obs.get('error'))
             sampled = obs['values']
-        ref = full_reference(case, lambda V, choice: models.logcnl(V, None, mk_nests(), choice)) if complete else None
+        ref = full_reference(case, lambda V, choice: models.logcnl(V, None, mk_nests(), choice), betas=betas) if complete else None
     except Exception as e:  # noqa: BLE001
         res.count({'cnl_raises': sub['nests'], 'seed': case['np_seed']})
         res.violate(f'get_cross_nested_logit / logcnl raises on a valid context: {type(e).__name__}: {e}'[:300], sub, core.exc_kind(e), 'log likelihoods',
@@ -1242,7 +1382,7 @@ def check_cnl_full(ctx, res, case, rng, nests_def=None):
     if not dup:
         keep_observation(ctx, holder)
     names_cols = list(data.columns)
-    lean_nests = [[f2b(mu), nm, [[a, f2b(w)] for a, w in al]] for mu, al, nm in nests_def]
+    lean_nests = [[f2b(mu_at[j]), n[2], [[a, f2b(w)] for a, w in n[1]]] for j, n in enumerate(nests_def)]
     for r, a in enumerate(sampled):
         res.count({'cnl': nests_def, 'segments': case['segments'], 'mev': case['mev']['segments'], 'sizes': [case['sizes'], case['mev']['sizes']],
                    'row': r, 'seed': case['np_seed']}, nontrivial=True)
@@ -1260,17 +1400,17 @@ def check_cnl_full(ctx, res, case, rng, nests_def=None):
             # a nest of a sampled alternative without any row in the second sample: 0 ** (1/mu - 1) in the code
             main_ids = [int(fnum(data.iloc[r][f'{case["id_col"]}_{i}'])) for i in range(J)]
             mev_ids = [int(fnum(data.iloc[r][f'{MEV_PREFIX}{case["id_col"]}_{i}'])) for i in range(J2)]
-            if any({x for x, _ in al} & set(main_ids) and not {x for x, _ in al} & set(mev_ids) for _, al, _ in nests_def) or not math.isfinite(a):
+            if any({x for x, _ in n[1]} & set(main_ids) and not {x for x, _ in n[1]} & set(mev_ids) for n in nests_def) or not math.isfinite(a):
                 res.tally('cnl_partial_sample_empty_nest_skipped')
                 continue
         full_row = [[k, f2b(fnum(data.iloc[r][k]))] for k in names_cols]
-        reqs = [{'op': 'cnlll', 'row': full_row, 'attributes': attributes, 'utility': lean_formula(case['utility']), 'J': J, 'J2': J2, 'nests': lean_nests}]
+        reqs = [{'op': 'cnlll', 'row': full_row, 'attributes': attributes, 'utility': lean_formula(utility_evaluated(case)), 'J': J, 'J2': J2, 'nests': lean_nests}]
         if complete:
             ind_named = [[case['choice_col'], f2b(float(case['choices'][r]))]] + [[k, f2b(case['irows'][r][j])] for j, k in enumerate(case['icols'])]
             reqs.append({'op': 'fullcnlll', 'ind': ind_named, 'alt_cols': case['cols'], 'ids': case['ids'],
                          'alt_rows': [[f2b(v) for v in vals] for vals in case['values']],
                          'combined': [[n, lean_formula(f)] for n, f in case['combined']],
-                         'utility': lean_formula(case['utility']), 'chosen': case['choices'][r], 'nests': lean_nests})
+                         'utility': lean_formula(utility_evaluated(case)), 'chosen': case['choices'][r], 'nests': lean_nests})
 
         def cb(ans, a=a, r=r, ref=ref[r] if complete else None, holder=holder):
             ll_ = ans[0].get('ll')
@@ -1565,7 +1705,7 @@ _LABEL_BASE = {
     'utility': ['+', ['*', ['b', 'B_cost', -0.75], ['v', 'cost']], ['*', ['b', 'B_at', -0.001953125], ['v', 'at']]], 'np_seed': 11, 'share': False,
 }
 CORPUS += [
-    {**_LABEL_BASE, 'ind_index': [3, 0, 4, 1, 2], 'alt_index': None, 'call': 'first'},
+    {**_LABEL_BASE, 'ind_index': [3, 0, 4, 1, 2], 'alt_index': None, 'call': 'first', 'eval_betas': {'B_cost': -0.25, 'B_at': 0.00390625}},
     {**_LABEL_BASE, 'ind_index': [1, 2, 3, 4, 5], 'alt_index': [4, 0, 6, 2, 1, 5, 3], 'call': 'second', 'sizes': [3, 4]},
     {**_LABEL_BASE, 'ind_index': [0, 0, 1, 1, 0], 'alt_index': ['e', 'a', 'g', 'c', 'b', 'f', 'd'], 'call': 'recycle',
      'mev': {'segments': [[2, 3, 7, 10], [12, 15, 21]], 'sizes': [2, 2]}},
@@ -1598,17 +1738,19 @@ NESTED_CORPUS = [
         {'syntax': 'objects', 'mu_mode': 'beta', 'nests': [{'mu': 2.0, 'alts': [15, 11], 'name': None}, {'mu': 1.5, 'alts': [17, 12, 14], 'name': 'nest_1'}, {'mu': 3.0, 'alts': [16], 'name': None}]},
         {'syntax': 'objects', 'mu_mode': 'shared', 'nests': [{'mu': 1.5, 'alts': [11, 12], 'name': 'a'}, {'mu': 1.5, 'alts': [13, 17, 16], 'name': 'b'}]},
         {'syntax': 'tuples', 'mu_mode': 'float', 'nests': [{'mu': 1.25, 'alts': [14, 13], 'name': None}, {'mu': 2.0, 'alts': [15, 16, 11], 'name': None}]},
+        # nest parameters evaluated away from their initial value 1
+        {'syntax': 'objects', 'mu_mode': 'beta', 'nests': [{'mu': 1.0, 'alts': [11, 13, 15], 'name': 'north', 'mu_eval': 1.7}, {'mu': 1.0, 'alts': [12, 16, 17], 'name': 'south', 'mu_eval': 2.5}]},
     ]),
 ]
 
 # cross-nested logit on the sample, table of alternatives whose labels are a permutation / repeated / strings
 CNL_CORPUS = [
     ({**_NESTED_CASE, 'alt_index': ai, 'ind_index': [2, 0, 1]},
-     [[1.5, [[11, 1.0], [12, 0.25], [13, 1.0], [14, 0.5]]], [2.0, [[12, 0.75], [14, 0.5], [15, 1.0], [16, 1.0], [17, 1.0]]]])
+     [[1.0, [[11, 1.0], [12, 0.25], [13, 1.0], [14, 0.5]], 'n0', 1.7], [2.0, [[12, 0.75], [14, 0.5], [15, 1.0], [16, 1.0], [17, 1.0]], 'n1']])
     for ai in ([3, 0, 6, 1, 5, 2, 4], [0, 0, 1, 1, 2, 2, 3], ['g', 'a', 'f', 'b', 'e', 'c', 'd'])
 ]
 
-# input of known finding F-C19-1 (kept identical to known_findings.d/C19.json)
+# input of finding F-C19-1 (fixed in /repo by 883442d; kept as a regression case)
 KNOWN_F_C19_1 = {
     'id_col': 'alt_id', 'ids': [30, 4, 17, 9], 'cols': ['a', 'a_0'], 'values': [[10.0, 1.0], [20.0, 2.0], [30.0, 3.0], [40.0, 4.0]], 'int_valued': False,
     'segments': [[4, 17], [9, 30]], 'sizes': [2, 2], 'mev': None, 'choice_col': 'choice', 'icols': ['age'], 'irows': [[2.5], [3.0]], 'choices': [17, 4],
@@ -1668,8 +1810,8 @@ def check(ctx) -> Result:
     for case, configs in NESTED_CORPUS:
         check_nested(ctx, res, case, rng, configs=configs)
         res.tally('corpus')
-    for case, nests_def in CNL_CORPUS:
-        check_cnl_full(ctx, res, case, rng, nests_def=nests_def)
+    for k, (case, nests_def) in enumerate(CNL_CORPUS):
+        check_cnl_full(ctx, res, case, rng, nests_def=nests_def, alpha_mode=['float', 'fixed_beta', 'free_beta'][k % 3])
         res.tally('corpus')
     done = 0
     for _ in range(ctx.n(60, 900)):
@@ -1738,7 +1880,7 @@ def search(ctx, res, broken):
         except Exception as e:  # noqa: BLE001
             res.notes.append(f'search: {type(e).__name__}: {e}')
             continue
-        found = [v for v in r2.violations if v.get('where') not in (F_C19_1_WHERE, F_C19_3_WHERE)]
+        found = list(r2.violations)
         if found:
             res.violations.extend(found[:1])
             return
@@ -1753,7 +1895,7 @@ def search(ctx, res, broken):
         except Exception as e:  # noqa: BLE001
             res.notes.append(f'search: {type(e).__name__}: {e}')
             continue
-        found = [v for v in r2.violations if v.get('where') not in (F_C19_1_WHERE, F_C19_3_WHERE)]
+        found = list(r2.violations)
         if found:
             res.violations.extend(found[:1])
             return
@@ -1764,7 +1906,7 @@ def search(ctx, res, broken):
         pc, k2 = gen_partition_case(rng)
         check_partition_case(shim, r2, pc, k2)
         check_segsize(shim, r2, rng.randint(0, 60), rng.randint(1, 12))
-        found = [v for v in r2.violations if v.get('where') not in (F_C19_1_WHERE, F_C19_3_WHERE)]
+        found = list(r2.violations)
         if found:
             res.violations.extend(found[:1])
             return
@@ -1772,7 +1914,7 @@ def search(ctx, res, broken):
 
 def _replay_nested(shim, res, sub):
     if sub.get('kind') == 'cnl':
-        check_cnl_full(shim, res, sub['case'], None, nests_def=sub['nests'])
+        check_cnl_full(shim, res, sub['case'], None, nests_def=sub['nests'], alpha_mode=sub.get('alpha_mode') or 'float')
     else:
         check_nested_full(shim, res, sub['case'], None, nests_def=sub['nests'])
 
